@@ -251,7 +251,7 @@ theorem header_goodIds (fs : SbomDir) (o : Opts) : GoodIds fs (header o) := by
       · exact imageId_valid _
       · exact layerId_valid l
     · simp only [addSourcePackage, List.mem_append, List.mem_cons, layerPackages, List.mem_map,
-        List.mem_singleton, List.not_mem_nil, or_false] at hp
+        List.not_mem_nil, or_false] at hp
       rcases hp with (rfl | ⟨l, _, rfl⟩) | rfl
       · exact imageId_valid _
       · exact layerId_valid l
